@@ -27,14 +27,20 @@ Proof. exact marbl_changes_nobody. Qed.
 Print Assumptions C15_forwarded_unchanged_refuted.
 
 (* Offsets are in range, the three section slices never panic and
-   concatenate to the snapshot; for the repaired and the unrepaired code. *)
+   concatenate to the snapshot, and the header section is a complete head
+   (ends with the blank line); for the repaired and the unrepaired code. *)
 Theorem C15_sections_partition : forall legacy o m,
   let v := fst (snapshot_gen legacy o m) in
   0 <= v_bodyoff v /\ v_bodyoff v <= v_troff v /\ v_troff v <= blen (v_message v) /\
   exists h b t, hdr_r v = Some h /\ body_r v = Some b /\ trl_r v = Some t /\
-                h ++ b ++ t = v_message v.
-Proof. exact sections_partition. Qed.
+                h ++ b ++ t = v_message v /\ ends_with (crlf ++ crlf) h = true.
+Proof. exact sections_partition_full. Qed.
 Print Assumptions C15_sections_partition.
+
+Theorem C15_header_section_is_the_head : forall legacy o m,
+  hdr_r (fst (snapshot_gen legacy o m)) = Some (head_bytes m).
+Proof. exact hdr_section_is_head. Qed.
+Print Assumptions C15_header_section_is_the_head.
 
 (* The chunked body the snapshot writes decodes to the body and trailers,
    nothing left over, never out of fuel. *)
@@ -48,13 +54,22 @@ Proof. exact dechunk_chunk_body. Qed.
 Print Assumptions C15_body_section_dechunks.
 
 (* A full snapshot is a parseable HTTP message equal to the original
-   (canonical form: header order as written, valueless trailer map = none). *)
-Theorem C15_snapshot_parseable : forall o m,
+   (canonical form: header order as written).  Guard: the Trailer map is nil;
+   with a non-nil Trailer the code omits the CRLF that ends the chunked body
+   (known finding C15-K4, pinned by the existing messageview tests). *)
+Theorem C15_snapshot_parseable_partial : forall o m,
   wf_b m = true ->
+  m_trailers m = None ->
   v_full (fst (snapshot o m)) = true ->
   parse_spec (m_isreq m) (v_message (fst (snapshot o m))) = Some (canon m).
 Proof. exact snapshot_parseable. Qed.
-Print Assumptions C15_snapshot_parseable.
+Print Assumptions C15_snapshot_parseable_partial.
+
+Theorem C15_snapshot_parseable_refuted :
+  exists m, wf_b m = true /\ v_full (fst (snapshot default_opts m)) = true /\
+            parse_spec (m_isreq m) (v_message (fst (snapshot default_opts m))) = None.
+Proof. exact snapshot_with_trailers_unparseable. Qed.
+Print Assumptions C15_snapshot_parseable_refuted.
 
 (* the text logger logs exactly those bytes *)
 Theorem C15_text_log_is_snapshot : forall ho m,
@@ -72,7 +87,8 @@ Print Assumptions C15_skip_means_unrecorded.
 Theorem C15_oracle_is_the_property : forall skip m o,
   c15_ok skip m o = true <->
   (ob_after o = m /\ ob_fwd_same o = true) /\
-  (forall h b t full, ob_sections o = Some (h, b, t, full) -> h ++ b ++ t = full) /\
+  (forall h b t full, ob_sections o = Some (h, b, t, full) ->
+     h ++ b ++ t = full /\ exists p, h = p ++ crlf ++ crlf) /\
   (forall r, ob_reparse o = Some r -> option_map canon r = Some (canon m)) /\
   (skip = true -> ob_records o = 0%nat) /\
   ob_err o = false.
@@ -85,13 +101,7 @@ Theorem C15_model_satisfies_oracle : forall lg skip m,
 Proof. exact model_satisfies_property. Qed.
 Print Assumptions C15_model_satisfies_oracle.
 
-(* The code before the repairs (fixes/C15-1..3) violates the property: *)
-Theorem C15_legacy_snapshot_parseable_refuted :
-  exists m, wf_b m = true /\ v_full (fst (snapshot_legacy default_opts m)) = true /\
-            parse_spec (m_isreq m) (v_message (fst (snapshot_legacy default_opts m))) = None.
-Proof. exact legacy_snapshot_unparseable. Qed.
-Print Assumptions C15_legacy_snapshot_parseable_refuted.
-
+(* The code before the repairs (fixes/C15-2, C15-3) violates the property: *)
 Theorem C15_legacy_forwarded_unchanged_refuted :
   exists m, wf_b m = true /\ snd (snapshot_legacy default_opts m) <> m.
 Proof. exact legacy_snapshot_changes_message. Qed.
@@ -109,7 +119,8 @@ Example C15_example_wf : wf_b ex_chunked = true /\ wf_b ex_empty_post = true
 Proof. vm_compute. repeat split. Qed.
 
 Example C15_example_snapshot :
-  parse_spec true (v_message (fst (snapshot default_opts ex_chunked))) = Some (canon ex_chunked)
-  /\ v_full (fst (snapshot default_opts ex_chunked)) = true
+  parse_spec true (v_message (fst (snapshot default_opts ex_chunked_nt))) = Some (canon ex_chunked_nt)
+  /\ wf_b ex_chunked_nt = true /\ m_trailers ex_chunked_nt = None
+  /\ v_full (fst (snapshot default_opts ex_chunked_nt)) = true
   /\ chunk_dec (chunk_enc (B "hello") [(B "X-T", B "v")]) = POk (B "hello", [(B "X-T", B "v")], []).
 Proof. vm_compute. repeat split. Qed.
